@@ -22,6 +22,7 @@ META = {
         "Not decided: that decoded values equal the arguments passed (execution); domains documented only in prose."
     ),
 }
+META["explanation"] += ' C03.R3 also: no payload segment is formatted in decimal. C03.R6: no CommandInvalid guard reads a parameter before the statement that re-binds it from itself; no raw comparison of a parameter that is normalised by _check_idx().'
 
 CMD = "ramses_tx.command"
 
